@@ -511,8 +511,10 @@ def gen_extras(start, want_types, specials):
             add("<%s as Hash>::hash_slice (hash of [a, b])" % t, t, "hash_slice", [g, g], ["Ty::S(Elem::U64)"],
                 "    let x: glam::%s = V::from_val(&a[0]);\n    let y: glam::%s = V::from_val(&a[1]);\n    vec![Val::U64(crate::ops::hash_of(&[x, y]))]" % (t, t), ["a", "b"])
         if kind == "vec" and elem in ("f32", "f64"):
-            add("%s::map (|e| e * 2 + 1)" % t, t, "map", [g], [g],
-                "    let s: glam::%s = V::from_val(&a[0]);\n    vec![V::into_val(s.map(|e| e * 2.0 + 1.0))]" % t, ["self"])
+            # the closure is caller code: what it is called with (values, order, how often) is observable too
+            add("%s::map (recording closure |e| e * 2 + 1)" % t, t, "map", [g], [g, "Ty::Slice(Elem::%s)" % PRIMS[elem]],
+                "    let s: glam::%s = V::from_val(&a[0]);\n    let seen: core::cell::RefCell<Vec<%s>> = core::cell::RefCell::new(Vec::new());\n"
+                "    let r = s.map(|e| { seen.borrow_mut().push(e); e * 2.0 + 1.0 });\n    vec![V::into_val(r), V::into_val(seen.into_inner())]" % (t, elem), ["self"])
     return out_fns, rows, i
 
 
